@@ -4,4 +4,5 @@ import Driver.OpsBattery
 import Driver.OpsFail
 import Driver.OpsAcct
 import Driver.OpsProf
+import Driver.OpsEV
 import Driver.Main
